@@ -457,6 +457,26 @@ def check_bytes_codec(ctx):
         ok = len(e) == 1 and len(d) == 1 and inverse.get(next(iter(e))) == next(iter(d))
         ctx.ob("codec.bytes.inverse-pair", BF, "encoding %r" % lit, ok,
                "%s <-> %s" % (next(iter(e)), next(iter(d))) if ok else "encoding %r is written with %s but read with %s" % (lit, sorted(e), sorted(d)))
+    # the value itself (un-encoded) is handed back only when it is None: an empty byte string is data and goes through the codec
+    from engine.flow import guard_atoms
+    tbf = model.method("BytesField", "to_basic")
+    vpb = tbf.positional_params[2]
+    for r in returns_of(an, tbf):
+        if r.ast.value is None:
+            continue
+        srcs = value_sources(tbf, r.ast.value, r)
+        if not any(k == "param" and pl == vpb for k, pl in srcs):
+            continue
+        is_none = False
+        for e, truth, _t in guard_atoms(an, tbf, r):
+            if isinstance(e, ast.Compare) and len(e.ops) == 1 and isinstance(e.left, ast.Name) and e.left.id == vpb \
+                    and isinstance(e.comparators[0], ast.Constant) and e.comparators[0].value is None:
+                if (isinstance(e.ops[0], ast.Is) and truth) or (isinstance(e.ops[0], ast.IsNot) and not truth):
+                    is_none = True
+        ctx.ob("codec.bytes.raw-only-for-none", tbf, r.ast, is_none,
+               "the value is handed back un-encoded only when it is None" if is_none else
+               "BytesField.to_basic can return the value itself for a value that is not None (an empty byte string): bytes reach the tree, "
+               "which is no longer plain data -- JSON/XML dumps fail, other formats do not load back", node=r)
     init = model.method("BytesField", "__init__")
     rej = any(n.kind == "raise" for n in an.cfg(init).nodes)
     ctx.ob("codec.bytes.ctor-rejects", init, "encoding not in ENCODINGS -> raise", rej, "unknown encodings are rejected at construction" if rej else
